@@ -7,7 +7,9 @@ package muxlib
 // under test contains the hooks of hooks/c09c10-transports.patch (rpc/{socket,websocket,udp}/verif_on.go).
 
 import (
+	"fmt"
 	"strconv"
+	"strings"
 	"sync"
 	"time"
 
@@ -60,7 +62,20 @@ func arrMark(key string) {
 var staleMu sync.Mutex
 var ownerOf = map[interface{}]*runState{}
 
+// the package of a connection handle: "socket", "udp" or "websocket"
+func pkgOf(conn interface{}) string {
+	t := fmt.Sprintf("%T", conn)
+	t = strings.TrimPrefix(t, "*")
+	if i := strings.IndexByte(t, '.'); i >= 0 {
+		return t[:i]
+	}
+	return t
+}
+
 func foreign(rs *runState, conn interface{}) bool {
+	if rs.pkg != "" && pkgOf(conn) != rs.pkg {
+		return true // a goroutine left behind by an earlier case on another transport
+	}
 	staleMu.Lock()
 	defer staleMu.Unlock()
 	o, ok := ownerOf[conn]
@@ -109,9 +124,14 @@ func installHooks(rs *runState) {
 			who = "k" + strconv.Itoa(k)
 		}
 		key := who + "|" + point
+		keyc := who + "@" + strconv.Itoa(cid) + "|" + point // the same, for the goroutine of one connection only
 		arrMark(key)
+		arrMark(keyc)
 		rs.mu.Lock()
 		hold := rs.holds[key]
+		if hold == nil {
+			hold = rs.holds[keyc]
+		}
 		rs.mu.Unlock()
 		if hold != nil {
 			h := ev("held")
